@@ -276,3 +276,35 @@ add("s-mirror-equivalent-algebra", S, ["C12"], "dfols/trust_region.py", "       
 add("s-mirror-comparison-flipped", S, ["C13"], "dfols/trust_region.py", "            elif xnew[j] >= b[j]:", "            elif b[j] <= xnew[j]:")
 add("random-default-widened", F, "C19", "dfols/params.py", "True if npt > (n+1)*(n+2)//2 else False", "True if npt >= (n+1)*(n+2)//2 else False", "C19-1b")
 add("x0-exit-returns-raw-residual", F, ["C20", "C03"], "dfols/solver.py", "return x0, r0_avg, obj0_avg, None, num_samples_run", "return x0, r0, obj0_avg, None, num_samples_run", "")
+
+# ---- rules added after the second seeding / refactoring round (pre-repair forms of F18b, F18c, F07f, F08c and the rewrites the new rules must tolerate)
+add("reduce-rho-third-case-unclamped", F, ["C18", "C10"], "dfols/controller.py", "new_rho = max(alpha1 * self.rho, self.rhoend)  # never below rhoend (alpha1 < 1/250 is allowed)", "new_rho = alpha1 * self.rho", "new-rho-below-rhoend")
+add("rhoend-scale-no-upper-bound", F, ["C18", "C10"], "dfols/params.py", "        elif key == \"restarts.rhoend_scale\":\n            type_str, nonetype_ok, lower, upper = 'float', False, 0.0, 1.0",
+    "        elif key == \"restarts.rhoend_scale\":\n            type_str, nonetype_ok, lower, upper = 'float', False, 0.0, None", "restart-factor-above-one")
+add("rhoend-scale-zero-accepted", F, ["C18"], "dfols/solver.py", "    if exit_info is None and params(\"restarts.rhoend_scale\") <= 0.0:\n        exit_info = ExitInformation(EXIT_INPUT_ERROR, \"restarts.rhoend_scale must be strictly positive\")\n", "", "restart-factor-zero")
+add("reduce-rho-first-case-below-rhoend", F, ["C18"], "dfols/controller.py", "        if ratio <= 16.0:\n            new_rho = self.rhoend", "        if ratio <= 16.0:\n            new_rho = 0.5 * self.rho", "C18-8")
+add("s-reduce-rho-first-case-threshold-moved", S, ["C18", "C10"], "dfols/controller.py", "        if ratio <= 16.0:\n            new_rho = self.rhoend", "        if ratio <= 10.0:\n            new_rho = self.rhoend")
+add("reduce-rho-called-unguarded", F, ["C18"], "dfols/solver.py", "            elif control.rho > rhoend:", "            elif control.rho >= rhoend:", "C18-8|C10-2")
+add("s-reduce-rho-clamp-other-order", S, ["C18", "C10"], "dfols/controller.py", "new_rho = max(alpha1 * self.rho, self.rhoend)", "new_rho = max(self.rhoend, self.rho * alpha1)")
+add("diagnostic-norm-checks-finiteness", F, ["C08"], "dfols/solver.py", "sqrt(norm_J_error), np.linalg.norm(gopt), np.linalg.norm(d))", "sqrt(norm_J_error), LA.norm(gopt), LA.norm(d))", "C08-3")
+add("s-diagnostic-norm-unchecked-scipy", S, ["C08"], "dfols/solver.py", "sqrt(norm_J_error), np.linalg.norm(gopt), np.linalg.norm(d))", "sqrt(norm_J_error), LA.norm(gopt, check_finite=False), LA.norm(d, check_finite=False))")
+add("sampling-loop-extra-break", F, ["C02"], "dfols/controller.py", "            num_samples_run += 1\n\n        # Check if the average value was below our threshold",
+    "            num_samples_run += 1\n            if obj_list[i] <= self.model.min_objective_value():\n                break\n\n        # Check if the average value was below our threshold", "sampling-loop-break-not-budget")
+add("extra-samples-into-previous-slot", F, ["C03", "C17"], "dfols/controller.py", "                    self.model.add_new_sample(k+1, rvec_extra=rvec_list[i, :])", "                    self.model.add_new_sample(k, rvec_extra=rvec_list[i, :])", "extra-sample-other-slot")
+add("extra-samples-loop-from-zero", F, ["C03", "C17"], "dfols/controller.py", "        for i in range(1, num_samples_run):\n            self.model.add_new_sample(knew, rvec_extra=rvec_list[i, :])\n\n        # Estimate actual",
+    "        for i in range(0, num_samples_run):\n            self.model.add_new_sample(knew, rvec_extra=rvec_list[i, :])\n\n        # Estimate actual", "extra-sample-loop")
+add("validator-converts-its-copy", F, ["C07"], "dfols/params.py", "    elif not isinstance(val, int):\n        return False", "    if isinstance(val, float) and val.is_integer():\n        val = int(val)\n    if not isinstance(val, int):\n        return False", "C07-5b")
+add("validator-wrong-type", F, ["C07"], "dfols/params.py", "    elif not isinstance(val, float):\n        return False", "    elif not isinstance(val, (int, float)):\n        return False", "C07-5b")
+add("growing-flag-and", F, ["C07"], "dfols/solver.py", "('growing.full_rank.use_full_rank_interp' in user_params or 'growing.perturb_trust_region_step' in user_params)",
+    "('growing.full_rank.use_full_rank_interp' in user_params and 'growing.perturb_trust_region_step' in user_params)", "C07-10")
+add("s-growing-flag-de-morgan", S, ["C07"], "dfols/solver.py", "('growing.full_rank.use_full_rank_interp' in user_params or 'growing.perturb_trust_region_step' in user_params)",
+    "not ('growing.full_rank.use_full_rank_interp' not in user_params and 'growing.perturb_trust_region_step' not in user_params)")
+add("restart-loop-limit-off-by-one", F, ["C07"], "dfols/controller.py", "            upper_limit = self.model.num_pts - 1", "            upper_limit = self.model.num_pts", "C07-12")
+add("resample-early-return", F, ["C17", "C08"], "dfols/model.py", "        objvals = self.objval[:self.npt()]\n        if not np.all(np.isnan(objvals)):",
+    "        if k != self.kopt and not (self.objval[k] < self.objopt()):\n            return\n        objvals = self.objval[:self.npt()]\n        if not np.all(np.isnan(objvals)):", "exit-without-reselection")
+add("s-save-point-guard-clause", S, ["C03", "C04", "C08", "C11", "C17"], "dfols/model.py",
+    "        if self.objsave is None or np.isnan(self.objsave) or obj <= self.objsave:  # never keep a NaN value over a finite one\n            self.xsave = xabs\n            self.rsave = rvec.copy()\n            self.objsave = obj\n            self.jacsave = self.model_jac.copy() if self.model_jac is not None else None\n            self.nsamples_save = nsamples\n            self.eval_num_save = eval_num\n            self.jacsave_eval_nums = self.model_jac_eval_nums.copy() if self.model_jac_eval_nums is not None else None\n            return True\n        else:\n            return False  # this value is worse than what we have already - didn't save",
+    "        if self.objsave is not None and not np.isnan(self.objsave) and not obj <= self.objsave:\n            return False\n        self.xsave = xabs\n        self.rsave = rvec.copy()\n        self.objsave = obj\n        self.jacsave = self.model_jac.copy() if self.model_jac is not None else None\n        self.nsamples_save = nsamples\n        self.eval_num_save = eval_num\n        self.jacsave_eval_nums = self.model_jac_eval_nums.copy() if self.model_jac_eval_nums is not None else None\n        return True")
+add("save-point-guard-clause-nan-blind", F, ["C08", "C17"], "dfols/model.py",
+    "        if self.objsave is None or np.isnan(self.objsave) or obj <= self.objsave:  # never keep a NaN value over a finite one\n            self.xsave = xabs\n            self.rsave = rvec.copy()\n            self.objsave = obj\n            self.jacsave = self.model_jac.copy() if self.model_jac is not None else None\n            self.nsamples_save = nsamples\n            self.eval_num_save = eval_num\n            self.jacsave_eval_nums = self.model_jac_eval_nums.copy() if self.model_jac_eval_nums is not None else None\n            return True\n        else:\n            return False  # this value is worse than what we have already - didn't save",
+    "        if self.objsave is not None and obj > self.objsave:\n            return False\n        self.xsave = xabs\n        self.rsave = rvec.copy()\n        self.objsave = obj\n        self.jacsave = self.model_jac.copy() if self.model_jac is not None else None\n        self.nsamples_save = nsamples\n        self.eval_num_save = eval_num\n        self.jacsave_eval_nums = self.model_jac_eval_nums.copy() if self.model_jac_eval_nums is not None else None\n        return True", "slot")
